@@ -5,6 +5,26 @@ ROOT = os.path.dirname(os.path.dirname(os.path.abspath(__file__)))
 
 # id -> (engine, category, technique, level text, level note, design ref)
 CHECKS = {
+ "C06": ("vh-registers", "exploration",
+         "stateful proptest over real SignedRegister/RegisterCrdt replicas: generated permission settings, op pools (authorised, unauthorised, forged, oversized, other-register, chained, dangling, hash-twin) and delivery/merge schedules with duplication and partitions, incl. a near-limit mode crossing the 1024-entry bound; oracle = acceptance predicate + set-union model + merge laws + verify()-closure + read-order independence",
+         "Generated schedules against a model computed from the op specification: acceptance iff authorised/validly signed/within size for this register, merge commutative/associative/idempotent, equal accepted sets give equal ops and reads in any application order, every reachable state passes verify() on the other replicas. Held-on-N-cases assurance; 8 seeded mutations caught.",
+         "BLS (blsttc), crdts and rmp-serde mirror construction trusted; either-zones: forged signature on an open register, a merge refused for exceeding the entry limit.",
+         "DESIGN.md §3 C06"),
+ "C18": ("vh-bootstrap", "exploration",
+         "stateful proptest histories against the real BootstrapCacheStore and one cache file (add/update/clean-up/flush/load/planted real-format files with past timestamps and generated counters), generated + exhaustively truncated corrupt files, and an OS-thread multi-writer stress with a concurrent reader; relational oracles over memory, load result and raw JSON read by the harness' own reader",
+         "After every generated step: bounds, well-formed dialable addresses with peer id, nothing expired/unreliable after clean-up, merge loses nothing clean-up has no licence to drop, save->load round trip; corrupt/foreign files never crash and are replaced by the next flush; every byte prefix of valid files; concurrent writers never produce a torn read (sampled by the OS scheduler, counted). Held-on-N-cases assurance.",
+         "Threads stand in for processes; expiry judged with a 300 s guard band; where a limit is exceeded everything of that peer is an either-zone; harness JSON reader and tmpfs/ext4 rename semantics trusted.",
+         "DESIGN.md §3 C18"),
+ "C03": ("vh-node", "exploration",
+         "proptest cases (record kind x prior content x proof of 3 quotes with six payment conditions toggled by construction) against the real Node validation code over a hand-stepped SwarmDriver with a JSON-RPC payment-contract stub; store-iff-all-conditions oracle with whole-store snapshots",
+         "Truth-table style generated search: every combination class of the six conditions (all true / exactly one false / several false) for every record kind and prior; stored-new implies all conditions, any false implies rejected and store byte-identical, all true implies stored with the contract asked about every quote; unpaid uploads only as updates. Held-on-N-cases assurance.",
+         "The Solidity contract is replaced by the stub's verdict table; expiry faults are >= 60 s beyond the boundary; proofs carry 3 quotes (contract arity).",
+         "DESIGN.md §3 C03"),
+ "C04": ("vh-node", "exploration",
+         "proptest cases (kind x path: kad-store put->UnverifiedRecord->validation / unpaid update / replicated copy x matched or adversarially mismatched key x prior content x malformed shapes) against the real node; oracle = independent SHA3-256 address derivation over whole-store snapshots",
+         "Generated search over (key, content) pairs on every acceptance path: nothing is ever held under a key its decoded content does not derive; a record under a foreign key is rejected and the store is byte-identical; valid matched records are stored; network records are unreadable before validation; oversized/unparseable ones are refused. Held-on-N-cases assurance.",
+         "Address derivation recomputed with tiny-keccak; scratchpad and transaction of one owner legitimately share an address; payment valid throughout (stub).",
+         "DESIGN.md §3 C04"),
  "C01": ("vh-store", "exploration",
          "stateful proptest histories (put/overwrite/remove/get/list + generated delivery order/delay of completion notifications + injected write faults) interpreted against the real SwarmDriver/NodeRecordStore and a per-key reference model; shrinking to replay file",
          "Generated-history search against a reference map: every read must return bytes handed in for that key; after settling, the latest accepted write per key is read back byte-exact, listed with the right type and on disk, removed keys are gone. The harness owns the schedule at the granularity the statement quantifies over (completion order of different-key tasks = order of the buffered completion notifications). Held-on-N-histories assurance.",
@@ -96,6 +116,6 @@ def main():
     json.dump(m, open(os.path.join(ROOT, "MANIFEST.json"), "w"), indent=1)
     print("wrote MANIFEST.json:", len(checks), "checks,", len(na), "not claimed")
 
-HOOK_COMMITS = ["1cacaa2", "a146744"]
+HOOK_COMMITS = ["1cacaa2", "a146744", "76ca8b1"]
 if __name__ == "__main__":
     main()
